@@ -42,6 +42,34 @@ def deriv_check(tier="quick", seed=0, only=None):
                 d = _same_trajectory(ref, chk)
                 if d:
                     failures.append(dict(label="C19:check_alters_the_subsequent_solve", input=inp_a, observed=d))
+        # (a') the same correct Jacobian handed over as COO triplets in which every stored position appears TWICE
+        # (scipy sums repeated positions): it must still pass; and a wrong TOTAL whose last triplet alone is right
+        # must still be rejected
+        if m > 0:
+            for wrong in (False, True):
+                inp_d = dict(scenario=name, kind="jacobian_as_repeated_triplets", wrong=wrong)
+                if only is not None and only != inp_d:
+                    continue
+                p = mk()
+                orig = p.cons_jac
+
+                def dup(x, orig=orig, wrong=wrong):
+                    J = orig(x).tocoo()
+                    extra = 0.25 if wrong else 0.0
+                    data = np.concatenate([0.5 * J.data + extra, 0.5 * J.data]) if not wrong else np.concatenate([np.full(J.nnz, extra), J.data])
+                    return sp.coo_matrix((data, (np.concatenate([J.row, J.row]), np.concatenate([J.col, J.col]))), shape=J.shape)
+
+                p.cons_jac = dup
+                cases += 1
+                try:
+                    Solver(p, mk_params(deriv_check=DerivCheck.CheckFirst, iteration_limit=2)).solve(x0, y0)
+                    if wrong and base.cons_jac(np.asarray(x0, float) if x0 is not None else np.zeros(n)).nnz > 0:
+                        failures.append(dict(label="C19:wrong_jacobian_total_behind_repeated_triplets_accepted", input=inp_d, observed="no error"))
+                except DerivError as e:
+                    if not wrong:
+                        failures.append(dict(label="C19:correct_jacobian_given_as_repeated_triplets_rejected", input=inp_d, observed=str(e)[:200]))
+                except Exception as e:  # noqa
+                    failures.append(dict(label=f"C19:unexpected_{type(e).__name__}", input=inp_d, observed=str(e)[:200]))
         # (b) a single wrong entry is pinpointed (Jacobian: every (r, c); gradient: every c)
         mags = [0.5] if tier == "quick" else [0.5, 1e-2, 30.0]
         for mag in mags:
